@@ -6,12 +6,15 @@ set -u
 patch="$(realpath "$1")"; tier="$2"; shift 2
 wt="/tmp/wt-mut-$$"
 git -C /repo worktree add --detach "$wt" HEAD >/dev/null 2>&1 || { echo "cannot create worktree"; exit 3; }
-trap 'git -C /repo worktree remove --force "$wt" >/dev/null 2>&1' EXIT
+# the check script caches its test binaries per tree path: remove the ones of this scratch tree, and its run files, on exit
+h=$(echo "$wt" | md5sum | cut -c1-6)
+trap 'git -C /repo worktree remove --force "$wt" >/dev/null 2>&1; rm -f /verif/.work/bin/*."$h".test; rm -rf /verif/.work/run/*.$$.* "/verif/.work/scratch-replays/$$"' EXIT
+export VERIF_SCRATCH_REPLAYS="/verif/.work/scratch-replays/$$"
 ( cd "$wt" && git apply "$patch" ) || { echo "patch does not apply"; exit 3; }
 export GOFLAGS=-mod=mod GOPROXY=off GOTOOLCHAIN=auto; unset GOSUMDB
 ( cd "$wt" && go build ./... ) || { echo "mutant does not build"; exit 3; }
 for p in "$@"; do
-  out=$(VERIF_REPO="$wt" /verif/check "$p" "$tier" 2>&1); rc=$?
+  out=$(VERIF_REPO="$wt" VERIF_SCRATCH_CLEAN=1 /verif/check "$p" "$tier" 2>&1); rc=$?
   keys=$(echo "$out" | grep -oE 'key=[^ ]+' | sort -u | tr '\n' ' ')
   echo "SEEDTEST $(basename "$(dirname "$patch")")/$(basename "$patch") $p $tier exit=$rc $keys"
 done
